@@ -251,7 +251,8 @@ func (ex *Exec) callFn(caller *frame, fn *ssa.Function, args []V, env []V) V {
 	}
 	if fn.Parent() == nil {
 		name := fn.String()
-		if h, ok := ex.intr[name]; ok {
+		if h, ok := ex.intr[name]; ok && !(name == "gorgonia.org/tensor.divmod" && fn.Blocks != nil) {
+			// (divmod: the model stands for the assembly only; under the noasm tag the Go body is the code)
 			ex.intrHit[name]++
 			return h(ex, caller, args)
 		}
